@@ -216,6 +216,22 @@ Section C10.
     intros x t. now apply weights_agree_tq.
   Qed.
 
+  Theorem C10_supervised_full labels m :
+    sup_fit ltb zero top labels (w_pre D idx) = sup_fit ltb zero top labels (w_dir dist feat) /\
+    predict_batch ltb zero (sup_fit ltb zero top labels (w_pre D idx))
+                  (map (d_pre_tq D idx idxq) (seq 0 m))
+    = predict_batch ltb zero (sup_fit ltb zero top labels (w_dir dist feat))
+                    (map (d_dir_tq dist feat featq) (seq 0 m)).
+  Proof. split; [apply C10_supervised_fit | apply C10_supervised]. Qed.
+
+  Theorem C10_semi_full labels nu m :
+    semi_fit ltb zero top labels nu (w_pre D idx) = semi_fit ltb zero top labels nu (w_dir dist feat) /\
+    predict_batch ltb zero (semi_fit ltb zero top labels nu (w_pre D idx))
+                  (map (d_pre_tq D idx idxq) (seq 0 m))
+    = predict_batch ltb zero (semi_fit ltb zero top labels nu (w_dir dist feat))
+                    (map (d_dir_tq dist feat featq) (seq 0 m)).
+  Proof. split; [apply C10_semi_fit | apply C10_semi]. Qed.
+
   (* KNN subgraph: create_arcs, and the neighbour scan of both KNN predicts ([query][train]) *)
   Theorem C10_knn_arcs thr one k n g :
     create_arcs ltb zero top thr one k n (w_pre D idx) g
